@@ -17,8 +17,12 @@ func signedWithTs(key *frame.V2Key, seq byte, ts uint64) []byte {
 }
 
 func signedFrom(key *frame.V2Key, seq byte, ts uint64, sys, comp, link byte) []byte {
+	return signedFromID(key, seq, ts, sys, comp, link, 300)
+}
+
+func signedFromID(key *frame.V2Key, seq byte, ts uint64, sys, comp, link byte, id uint32) []byte {
 	f := &frame.V2Frame{IncompatibilityFlag: 1, SequenceNumber: seq, SystemID: sys, ComponentID: comp,
-		Message: &message.MessageRaw{ID: 300, Payload: []byte{seq}}, Checksum: 0x1234,
+		Message: &message.MessageRaw{ID: id, Payload: []byte{seq}}, Checksum: 0x1234,
 		SignatureLinkID: link, SignatureTimestamp: ts}
 	f.Signature = f.GenerateSignature(key)
 	bs, _ := writeFrame(nil, f)
@@ -35,6 +39,23 @@ func genC07(o *hx.Out, tier string) {
 		}
 		cs := one(all)
 		o.AddLater(class, hx.ReadAllLater(cs, nil, key, nil), "fread", "-", hx.Hex(key[:]), hx.ChunksText(cs))
+	}
+	// the same window when the reader also has a dialect that does not contain the message the frames
+	// carry (they are delivered undecoded): key + restricted dialect
+	md := shipped("minimal")
+	mdrw := defineDialect(o, "minimal", md)
+	runD := func(class string, seq []uint64) {
+		var all []byte
+		for i, ts := range seq {
+			all = append(all, signedFromID(key, byte(i), ts, 7, 9, 3, 4242)...) // 4242 is not a message of minimal
+		}
+		cs := one(all)
+		o.AddLater(class, hx.ReadAllLater(cs, mdrw, key, nil), "fread", "minimal", hx.Hex(key[:]), hx.ChunksText(cs))
+	}
+	for _, a := range tsAlphabet {
+		for _, b := range tsAlphabet {
+			runD("key and a dialect without the message", []uint64{a, b})
+		}
 	}
 	depth := 3
 	if tier == "thorough" {
